@@ -51,6 +51,13 @@ def render_topic(prefix, vals, scope, op):
     return out + scope.encode() + b"." + op.encode()
 
 
+class _Mirror:
+    """the action list as the runner gets it: identical to `acts` except for subscriptions made through Subscribe<op>Errorable"""
+    def __init__(self, acts): self.acts, self.over = acts, {}
+    def append(self, a): self.over[len(self.acts) - 1] = a      # replaces the action just appended to acts
+    def render(self): return [self.over.get(i, a) for i, a in enumerate(self.acts)]
+
+
 def suite_c07(r, n):
     nprogs = max(1, min(8, n // 15))
     progs = []
@@ -75,17 +82,31 @@ def suite_c07(r, n):
             (oop, ooty) = r.pick(others) if others else (None, None)
             okey, ookey = (oty.file, oty.name), ((ooty.file, ooty.name) if ooty else None)
             proto = r.pick(["binary", "compact", "json"])
-            def vals(): return [r.pick(VAR_VALUES) for _ in names]
+            def vals():
+                # C08: with >= 2 variables mostly pairwise DIFFERENT values (a permuted / dropped variable between
+                # the public entry point and the topic template then changes the topic)
+                if len(names) >= 2 and r.chance(70):
+                    pool, out = list(VAR_VALUES), []
+                    for _ in names: out.append(pool.pop(r.intn(len(pool))))
+                    Stat("vars:pairwise-different")
+                    return out
+                return [r.pick(VAR_VALUES) for _ in names]
             def varg(vs): return "+".join(hx(v) for v in vs) if vs else "."
             # subscriptions: ALL made from the one emitted subscriber object / the one FScopeProvider
             subs = []            # {"op", "ty", "vals", "topic", "on"}
             acts, expect_acts, expect_calls = [], [], []
+            racts = _Mirror(acts)     # what the runner executes: acts, with the entry point chosen per subscription
             seq = 0
             def add_sub(kind, vs):
                 sop, sty = (op, oty) if kind == "S" else (oop, ooty)
                 t = render_topic(prefix, vs, skey[1], sop)
                 subs.append({"op": sop, "ty": sty, "vals": vs, "topic": t, "on": True})
                 acts.append("%s!%s" % (kind, varg(vs)))
+                # the runner makes the subscription through Subscribe<op> or (30%) Subscribe<op>Errorable: both public
+                # entry points must subscribe to the same topic (same expectation, same model line)
+                ent = "E" if r.chance(30) else ""
+                racts.append("%s%s!%s" % (kind, ent, varg(vs)))
+                Stat("entry:Subscribe" + ("Errorable" if ent else ""))
                 expect_acts.append("sub:" + t.hex())
                 Stat("act:%s" % kind)
             sub_vals = vals()
@@ -162,7 +183,7 @@ def suite_c07(r, n):
                     more_sub()
             Stat("subscriptions-from-one-subscriber:%d" % len(subs))
             toks = ",".join(("v:" + x.encode().hex()) if k == "var" else ("l:" + x.encode().hex()) for (k, x) in prefix) if prefix else "."
-            payload = "%s|%s|%s|%s|%s" % (proto, op, oop or "-", ("%s/%s" % ookey) if ookey else "-", "/".join(acts))
+            payload = "%s|%s|%s|%s|%s" % (proto, op, oop or "-", ("%s/%s" % ookey) if ookey else "-", "/".join(racts.render()))
             jobs.append(("ps7", "p%d" % p.pid, "%s/%s" % skey, "%s/%s" % okey, payload))
             line = "g7 %s %s/%s %s %s %s %s %s %s %s" % (defs, okey[0], okey[1], ("%s/%s" % ookey) if ookey else "-", skey[1], op, oop or "-", toks, proto, "/".join(acts))
             expect = "n=%d acts=%s calls=%s" % (len(expect_calls), ",".join(expect_acts), "/".join(expect_calls) if expect_calls else "-")
